@@ -332,7 +332,13 @@ class ListRowContainer(Container):
                 if len(lines_per_row) <= row_id:
                     lines_per_row.append(0)
 
-                lines_per_row[row_id] = max(lines_per_row[row_id], len(item.widget.get_lines()))
+                item_lines = len(item.widget.get_lines())
+                if self._key_pattern is not None:
+                    # the label is printed even if the item is empty
+                    label_lines = len(self._numbering_widgets[item_id].get_lines())
+                    item_lines = max(item_lines, label_lines)
+
+                lines_per_row[row_id] = max(lines_per_row[row_id], item_lines)
 
         return lines_per_row
 
